@@ -55,8 +55,9 @@ class Clause:
     """outer(u, v) -> (lo, hi): every result for a point of the box must lie in [lo, hi] if the clause holds (used to refute).
     inner(u, v) -> (lo, hi) or None: a result interval inside [lo, hi] proves the clause for every point of the box."""
 
-    def __init__(self, name, what, boxes, outer, inner='same', only_independence=False, domain=None, same_as=None):
+    def __init__(self, name, what, boxes, outer, inner='same', only_independence=False, domain=None, same_as=None, extra_thetas=None):
         self.name, self.what, self.boxes, self.outer = name, what, boxes, outer
+        self.extra_thetas = extra_thetas or {}  # family -> additional theta pieces (exact ends of the property's range)
         self.inner = outer if inner == 'same' else inner
         self.only_independence = only_independence
         self.same_as = same_as  # 'u' / 'v': returning that input unchanged proves the clause
@@ -82,9 +83,9 @@ def run_clause(ctx, rep, rule, fam, method, clause, memo):
     fn = cls.lookup(method)
     if fn is None:
         raise AnalysisError(f'anchor vanished: {fam}.{method}')
-    n_ok = n_und = 0
+    n_ok = n_und = n_bad = 0
     first_und = None
-    thetas = THETA[fam]
+    thetas = THETA[fam] + list(clause.extra_thetas.get(fam, []))
     if clause.only_independence:
         thetas = [INDEPENDENCE_THETA[fam]] if fam in INDEPENDENCE_THETA else []
         if not thetas:
@@ -115,13 +116,20 @@ def run_clause(ctx, rep, rule, fam, method, clause, memo):
             if d == 'ok':
                 n_ok += 1
             elif d.startswith('bad:'):
+                cons = f'{fam}.{method}: {clause.name}'
+                if clause.extra_thetas:
+                    cons += f' @ theta={th.lo:g} u={u.lo:g} v={v.lo:g}' if (th.exact and u.exact and v.exact) else f' @ {_fmt((fam, th, u, v))}'
                 rep.bad(rule, fn, fn.node.name, f'{fam}.{method}: {clause.what} is refuted for {_fmt((fam, th, u, v))}: {d[4:]}',
-                        construct=f'{fam}.{method}: {clause.name}')
-                return 'bad'
+                        construct=cons)
+                n_bad += 1
+                if not clause.extra_thetas or n_bad >= 6:
+                    return 'bad'   # ordinary clauses: one witness box is the finding; point-keyed clauses list every refuted point
             else:
                 n_und += 1
                 first_und = first_und or f'{_fmt((fam, th, u, v))}: {d[4:]}'
     total = n_ok + n_und
+    if n_bad:
+        return 'bad'
     if n_und == 0:
         rep.ok(rule, fn, fn.node.name, f'{clause.what}: proved on all {total} boxes', construct=f'{fam}.{method}: {clause.name}')
         return 'ok'
@@ -174,6 +182,19 @@ def ppf_clauses():
     dom = (OPEN, OPEN)
     return [Clause('ppf in [0,1]', '0 <= percent_point(y, v) <= 1', grid, lambda u, v: (0.0, 1.0), domain=dom),
             Clause('independence', 'percent_point(y, v) = y at the independence parameter', grid, lambda u, v: (u.lo, u.hi), None, True, domain=dom, same_as='u')]
+
+
+# exact ends of the property's parameter range (|Kendall tau| = 0.8): Gumbel theta = 1 / (1 - 0.8), Frank |theta| = 18.2
+RANGE_ENDS = {'Gumbel': [IV(5.0)], 'Frank': [IV(18.2), IV(-18.2)], 'Clayton': [IV(8.0)]}
+
+
+def bracket_clauses(lo_end):
+    """The generic quantile search brackets the root of h(u, v) - y on [lo_end, 1]: for every y >= 1e-4 of the property's
+    range the function must be <= 0 at the lower end, i.e. h(lo_end, v) <= 1e-4 for every v in [1e-4, 1 - 1e-4]."""
+    pt = IV(lo_end)
+    boxes = [(pt, IV(LO)), (pt, IV(HI))] + [(pt, x) for x in INNER]
+    return [Clause('bracket lower end', f'partial_derivative({lo_end:g}, v) <= 1e-4 (so that the search bracket [{lo_end:g}, 1] has a sign change for every y >= 1e-4)',
+                   boxes, lambda u, v: (-float('inf'), LO), lambda u, v: (-float('inf'), LO), domain=(CLOSED, OPEN), extra_thetas=RANGE_ENDS)]
 
 
 def refine(ctx):
